@@ -231,7 +231,9 @@ def line_search(
     if above_iter == 0 and not is_boxed:
         steplength_0 = min(1.0 / np.sqrt(d.dot(d)), max_steplength)
     else:
-        steplength_0 = 1.0
+        # xbar may sit one ulp off a bound, which makes the maximum feasible step
+        # 1 - eps: never start beyond it (dcsrch would fail with STP > STPMAX)
+        steplength_0 = min(1.0, max_steplength)
 
     # Support for python 3.7 and 3.8: the minpack2 wrapper has been removed from
     # scipy from version 1.12 and replaced with a python implementation.
